@@ -49,6 +49,9 @@ CHECKS = {
  "C20": ("Server and client JSON schemas are regenerated from struct tags and field types (library model; client/model_*.go); `mismatches` (decidable: no client member of matching name, or a type that cannot hold the values, e.g. int32 for a 10+ digit amount) is shown by `decide` to equal the committed list of recorded findings exactly, so any further drift breaks the theorem. Real code: fully populated server documents through client.IclFile and back, compared leaf by leaf; each wide integer at its column maximum.",
          TB + "The property is FALSE on the pinned tree for the recorded members (39 schema entries; 69 leaf-level keys in known_findings.json); the client is generated from openapi.yaml, regenerating it is not a small repair. The client's HTTP plumbing is exercised by C11's harness only.",
          "Lean 4 table proof over regenerated schemas + through-the-client wire comparison", "§7.20"),
+ "C09": ("Walk completeness proved on the build model: a successful Bundle.build has run the record validator (the same regenerated rule tree the reader runs after parsing) on the header, every check/return item with all addenda and image views, and the rebuilt control (bundle_walk_complete). Tied to the code by the FULL matrix: every record of generated files x every field x {blank, zeros, code outside any table, illegal character}: accept/reject verdict of real Create()+Validate() vs the model, and whenever the real build or FileFromJSON accepts, the written bytes are read back by the real Reader.",
+         TB + "PARTIAL at proof level: cash-letter/file level walk (header, credits, credit items, summaries) and the second half (valid records parse back valid) are covered by the matrix and the C01 round trip, not by theorems yet.",
+         "Lean 4 proof on the build model + exhaustive single-field fault matrix", "§7.9"),
  "C10": ("Validate() of every record is translated (go/ast) into a statement tree; Lean proves that its verdict on ANY record value is the first firing rule of its flattening (validate_sites) and `decide` shows the flattening and all code tables equal the hand-transcribed documented rules. The finite domain the property names (0-2 character strings, ints -1..100, both FRB settings) is additionally enumerated against the real Validate().",
          TB + "Go regexp evaluated per byte for the three character classes; the rule translator is validated each run by ~1M real Validate() verdicts.",
          "Lean 4 proof over regenerated rule trees/code tables + exhaustive correspondence", "§7.10"),
